@@ -46,6 +46,8 @@ class C17Generic1D(Harness):
         for bad in ("scalar", "string", "ragged", "weights_short", "weights_2d_for_1d", "none_with_bins", "dict"):
             yield f"c1d-bad-{bad}", dict(form="list", weights="none", bad=bad)
         yield "c1d-nan-dropna-off", dict(form="list", weights="none", bad="nan_no_dropna")
+        for nm in ("int7", "int0", "tuple"):
+            yield f"c1d-named-{nm}", dict(form="named_list", weights="none", bad=None, name=nm)
         # infinite entries are not NaN: they are kept (as overflow / underflow) together with their weights
         for form in ("list", "array2d", "iterator"):
             for inf in ("+inf", "-inf"):
@@ -73,7 +75,7 @@ class C17Generic1D(Harness):
         if f == "array2d":
             return np.asarray([[vals[0]], [vals[1]]], dtype=float)
         if f == "named_list":
-            return Named(vals, "col")
+            return Named(vals, {"int7": 7, "int0": 0, "tuple": ("track", 1)}.get(p.get("name"), "col"))
         return range(2)
 
     def drive(self, E, p, x):
@@ -128,7 +130,7 @@ class C17Generic1D(Harness):
             return
         g, r = dict(obs["got"]), dict(obs["ref"])
         if p["form"] == "named_list":
-            yield "axis_name_from_container", g["axis_names"] == ["col"]
+            yield "axis_name_from_container", g["axis_names"] == [{"int7": "7", "int0": "0", "tuple": "track, 1"}.get(p.get("name"), "col")]
             g["axis_names"] = r["axis_names"]
             g["meta_keys"], r["meta_keys"] = [], []
         if p["form"].startswith(("h2", "h3")):
@@ -162,7 +164,7 @@ class C17GenericND(Harness):
         for form in FORMS_ND:
             for wk in ("none", "list"):
                 yield f"cnd-{form}-w{wk}", dict(form=form, weights=wk, bad=None)
-        for bad in ("one_dim", "unequal_columns", "weights_len", "ragged_rows", "axis_names_len"):
+        for bad in ("one_dim", "unequal_columns", "weights_len", "ragged_rows", "axis_names_len", "h3_four_columns", "h2_dim_three_columns", "h_dim_too_small"):
             yield f"cnd-bad-{bad}", dict(form="list_of_rows", weights="none", bad=bad)
         yield "cnd-named-columns", dict(form="h2_named", weights="none", bad=None)
         for form in ("h3_named", "h3_lists_explicit_names", "h2_named_explicit_names", "h2_lists_explicit_names", "rows_explicit_names"):
@@ -192,6 +194,12 @@ class C17GenericND(Harness):
                 r = E.attempt(fac.h2, [rows[0][0], rows[1][0]], [rows[0][1]], bins)
             elif bad == "weights_len":
                 r = E.attempt(fac.h, arr, bins, weights=[1, 2, 3])
+            elif bad == "h3_four_columns":
+                r = E.attempt(fac.h3, np.asarray([[rows[0][0], rows[0][1], rows[1][0], rows[1][1]]], dtype=float), [np.asarray([0.0, 1.0])] * 3)
+            elif bad == "h2_dim_three_columns":
+                r = E.attempt(fac.h, np.asarray([[rows[0][0], rows[0][1], rows[1][0]]], dtype=float), [np.asarray([0.0, 1.0])] * 2, dim=2)
+            elif bad == "h_dim_too_small":
+                r = E.attempt(fac.h, [[rows[0][0], rows[0][1], rows[1][0]], [rows[1][1], rows[0][0], rows[0][1]]], 2, dim=2)
             elif bad == "ragged_rows":
                 r = E.attempt(fac.h, [[rows[0][0], rows[0][1]], [rows[1][0]]], bins)
             else:
